@@ -11,6 +11,7 @@ of the choice list.
 """
 from __future__ import annotations
 
+import _thread
 import os
 import sys
 import threading
@@ -20,7 +21,30 @@ from typing import Dict
 from typing import List
 from typing import Optional
 
+from . import simlock
 from .core import HarnessError
+
+
+
+class LockDeadlock(Exception):
+    """Every live simulated thread is waiting for a lock held by another one."""
+
+
+class _Baton:
+    """A binary semaphore made of a raw (never patched) lock: starts unavailable."""
+
+    __slots__ = ("_l",)
+
+    def __init__(self) -> None:
+        self._l = _thread.allocate_lock()
+        self._l.acquire()
+
+    def acquire(self, timeout: float = -1) -> bool:
+        return self._l.acquire(True, timeout)
+
+    def release(self) -> None:
+        self._l.release()
+
 
 QUANTA = [0, 1, 2, 3, 5, 8, 13, 21, 34, 55, 89, 144]  # 0 = run until the next voluntary yield
 WAIT_S = 90.0
@@ -33,7 +57,7 @@ class _Client:
         self.idx = idx
         self.name = name
         self.fn = fn
-        self.sem = threading.Semaphore(0)
+        self.sem = _Baton()
         self.done = False
         self.exc: Optional[BaseException] = None
         self.thread: Optional[threading.Thread] = None
@@ -54,10 +78,13 @@ class ThreadSched:
         self.trace_dir = os.path.join(os.path.realpath(trace_dir), "")
         self.clients: List[_Client] = []
         self.current: Optional[_Client] = None
-        self.main_sem = threading.Semaphore(0)
+        self.main_sem = _Baton()
+        self._idents: Dict[int, None] = {}
         self.quantum = 0
         self.steps = 0
         self.switches = 0
+        self.lock_waits = 0
+        self.offers = 0  # reschedule points reached (quantum expiries and voluntary yields)
         self.preempts_in: Dict[str, int] = {}
         self.on_switch = on_switch
         self.max_steps = max_steps
@@ -108,6 +135,7 @@ class ThreadSched:
 
     def _reschedule(self, me: _Client, where: str) -> None:
         """Called by the baton holder: maybe hand the baton to another live client."""
+        self.offers += 1
         live = [c for c in self.clients if not c.done and c is not me]
         if not live:
             self._new_quantum()
@@ -128,6 +156,31 @@ class ThreadSched:
             self.failed = f"client {me.name} never got the baton back"
             raise HarnessError(self.failed)
 
+    def is_client_thread(self) -> bool:
+        return _thread.get_ident() in self._idents
+
+    def blocked_on_lock(self, spins: int) -> None:
+        """The baton holder cannot take a lock of the code under simulation: run somebody else, retry later."""
+        me = self.current
+        if me is None:
+            return
+        if spins > 400:
+            raise LockDeadlock(f"client {me.name} still cannot take a lock after yielding {spins} times")
+        live = [c for c in self.clients if not c.done and c is not me]
+        if not live:
+            raise LockDeadlock(f"client {me.name} waits for a lock nobody alive holds")
+        target = live[self.choose(len(live), "lock-wait")]
+        self.switches += 1
+        self.lock_waits += 1
+        if self.on_switch is not None:
+            self.on_switch(me.idx, target.idx, "lock", target.last_file)
+        self.current = target
+        self._new_quantum()
+        target.sem.release()
+        if not me.sem.acquire(timeout=WAIT_S):
+            self.failed = f"client {me.name} never got the baton back"
+            raise HarnessError(self.failed)
+
     def yield_point(self) -> None:
         """Voluntary yield at an operation boundary (called from client code)."""
         me = self.current
@@ -138,6 +191,7 @@ class ThreadSched:
     def _body(self, c: _Client) -> None:
         if not c.sem.acquire(timeout=WAIT_S):
             return
+        self._idents[_thread.get_ident()] = None
         sys.settrace(self._trace)
         try:
             c.fn()
@@ -170,10 +224,14 @@ class ThreadSched:
         first = self.clients[self.choose(len(self.clients), "thread-start")]
         self.current = first
         self._new_quantum()
-        first.sem.release()
-        if not self.main_sem.acquire(timeout=WAIT_S * 4):
-            self.failed = self.failed or "thread scheduler stalled"
-            raise HarnessError(self.failed)
+        simlock.ACTIVE = self
+        try:
+            first.sem.release()
+            if not self.main_sem.acquire(timeout=WAIT_S * 4):
+                self.failed = self.failed or "thread scheduler stalled"
+                raise HarnessError(self.failed)
+        finally:
+            simlock.ACTIVE = None
         for c in self.clients:
             if c.thread is not None:
                 c.thread.join(timeout=WAIT_S)
